@@ -1,4 +1,4 @@
-// Unit U-offsets-v: IterPos and OffsetsBase::next (rten-tensor/src/iterators.rs), verbatim bodies,
+// Unit U-offsets-v: IterPos and OffsetsBase::{next,pos,ndim,size_hint,truncate} (rten-tensor/src/iterators.rs), verbatim bodies,
 // for ARBITRARY sizes, strides and number of outer dimensions (unbounded).
 // `OffsetsBase::step_outer_pos` uses iterator adaptors outside Verus' subset: its contract is
 // ASSUMED here (external_body) and checked by the bounded Kani unit U-offsets.
@@ -8,7 +8,7 @@ verus! {
 
 //@extract kind=const file=rten-tensor/src/iterators.rs name=INNER_NDIM
 
-//@extract kind=struct file=rten-tensor/src/iterators.rs name=IterPos
+//@extract kind=struct file=rten-tensor/src/iterators.rs name=IterPos keep_attrs=1
 
 //@extract kind=struct file=rten-tensor/src/iterators.rs name=OffsetsBase
 
@@ -273,6 +273,15 @@ impl OffsetsBase {
     //@|     final(self).inner_pos == old(self).inner_pos, final(self).outer_pos == old(self).outer_pos,
     //@|     final(self).inner_offset == old(self).inner_offset, final(self).outer_offset == old(self).outer_offset, // @ob:truncate.only_len
 
+
+    //@extract kind=fn file=rten-tensor/src/iterators.rs within="impl OffsetsBase" name=ndim vis=pub(super)
+    //@| requires self.outer_pos@.len() + INNER_NDIM <= usize::MAX
+    //@| ensures r as int == self.digits().len(), // @ob:ndim.exact
+
+    //@extract kind=fn file=rten-tensor/src/iterators.rs within="impl OffsetsBase" name=pos vis=pub(super)
+    //@| requires dim < self.digits().len()
+    //@| ensures r == self.digits()[dim as int], // @ob:pos.selects_digit
+
     //@extract kind=fn file=rten-tensor/src/iterators.rs within="impl Iterator for OffsetsBase" name=next
     //@| requires old(self).wf()
     //@| ensures
@@ -281,6 +290,9 @@ impl OffsetsBase {
     //@|         && (old(self).outer_offset + old(self).inner_offset) as int == old(self).front_offset()   // @ob:next.yields_front_offset
     //@|         && final(self).len == old(self).len - 1,
     //@|     old(self).len > 0 ==> final(self).advanced_from(old(self)), // @ob:next.advances_front_by_one
+
+    //@extract kind=fn file=rten-tensor/src/iterators.rs within="impl Iterator for OffsetsBase" name=size_hint
+    //@| ensures r.0 == self.len, r.1 == Some(self.len), // @ob:size_hint.exact
 }
 } // mod code
 
